@@ -14,7 +14,10 @@ CONSTANTS
   Acts = {"New", "Import", "Delete", "SetDefault", "SetLabel", "ChangePassword", "ChangeScheme", "Reload", "SetFault", "ClearFault"}
   NewIgnoresWalletScrypt = FALSE
   DupAddrImport = FALSE
+  Threads = {1}
+  Split = {}
+  OneShot = FALSE
 VIEW view
-INVARIANTS TypeOK Saved Persist Opens OneDefault
-PROPERTIES FailNoChange
+INVARIANTS TypeOK Saved Persist Opens OneDefault DefaultListed
+PROPERTIES FailNoChange AuthCurrent
 CHECK_DEADLOCK FALSE
